@@ -344,10 +344,6 @@ def allowed_to_verify(name, seedhash, label, mutant):
     """True when `mutant` is a documented (or value-preserving) re-encoding of the same digest bits and settings.
     Decided from the two strings alone -- never from the parser under test."""
     b = HS.base_name(name)
-    # R0: one trailing line terminator is not an alteration of digest or settings
-    for t in ("\r\n", "\n"):
-        if mutant == seedhash + t:
-            return True
     # R6: whole-string case change
     if label in ("whole:upper", "whole:lower"):
         if name in HEX_INSENSITIVE:
